@@ -27,6 +27,8 @@ type Node struct {
 	F  float64     `json:"f,omitempty"` // scalar argument
 	S  []int       `json:"s,omitempty"` // shape argument
 	R  []ref.Range `json:"r,omitempty"` // index argument
+	// Twice: the library call is made twice with the same arguments; the second result is used
+	Twice bool `json:"twice,omitempty"`
 	// RNil distinguishes a nil index from an empty one (both mean "whole tensor").
 }
 
@@ -253,6 +255,12 @@ func RunLib(p Program) ([]tensor.Tensor, error) {
 		in := make([]tensor.Tensor, len(n.In))
 		for k, o := range n.In {
 			in[k] = vals[o]
+		}
+		if n.Twice {
+			// the same call was made once before (its result is dropped)
+			if _, err := ApplyLib(n, in, nil); err != nil {
+				return nil, fmt.Errorf("node %d (%s), first of two calls: %w", i, n.Op, err)
+			}
 		}
 		y, err := ApplyLib(n, in, nil)
 		if err != nil {
